@@ -342,4 +342,14 @@ def translate() -> tuple[str, dict]:
     return '\n'.join(lines), side
 
 
+# Written instead of the texts when the translator fails closed, so that the rest of the development still builds and the other
+# ties of the check are still evaluated (the error-text obligations and correspondence are skipped, translate:ErrFmt_gen has failed).
+EMPTY_GEN = ('(* GENERATED by translate/c03_errfmt.py: the translator FAILED CLOSED; every combination "raises". *)\n'
+             'From Coq Require Import NArith List Bool.\nFrom SV Require Import Text.ErrFmt.\nImport ListNotations.\nOpen Scope N_scope.\n'
+             'Definition gen_fcfg : fcfg := {| f_none_none := None; f_file_only := None; f_line_only := None; f_both := None |}.\n'
+             'Definition gen_token_messages : list (N * option (list piece) * option (list piece)) := [].\n'
+             'Definition gen_token_members : list N := [].\n'
+             'Definition gen_error_ctor_ok : bool := false.\nDefinition gen_error_str_form_ok : bool := false.\n'
+             'Definition gen_error_two_values_refused : bool := false.\n')
+
 GEN = {'ErrFmt_gen': translate}
